@@ -187,6 +187,15 @@ for j in range(4):
           procs=[ev("A", 1)] * j + [ev("A", 2)])
 
 
+# Panic attribution in a hierarchy: the panicking model is named by its fully qualified name.
+for who in ("P", "P.a", "P.b", "P.a.x", "Q"):
+    bench("hpanic_" + who.replace(".", "_"), ["P", "P.a", "P.a.x", "P.b", "Q"],
+          prog=[[NOP], [bop("panic")], [send(1, 1)]],
+          ports={"P": [out(conn("P.a"))], "Q": [out(conn("P.b"))]},
+          initprog={"P": 3, "Q": 3},
+          procs=[ev("Q", 1), ev(who, 2), ev("Q", 1)])
+
+
 def constants(b):
     ports_tla = {m: [[dict(tgt=c["tgt"], mode=c["mode"], accept=set(c["accept"]), delta=c["delta"])
                       for c in p["conns"]] for p in b["ports"][m]] for m in b["models"]}
